@@ -1,6 +1,11 @@
 (* line protocol around the extracted loop models of coq/C01/Passes.v.
    input :  <K> <fuel> <tokens>|<cp>
             K in S (ParseSections) L (ParseLines) P (ParseParagraphs) Q (ParseSingleQuote) U (ParseUrls)
+                 F (ParsePreformatted; model coq/C01/PassesPre.v, its own token codes:
+                    o  w (t_pre)  n  B  Dq Dt Dl Dd Ds (complex_tag blockquote/table/timeline/div/span)  F (preformatted))
+                 C (TableCellParser) R (TableRowParser) T (TableParser); model coq/C01/PassesTable.v, token codes:
+                    o  _ (blank text)  n  b  |1 !1 |2 !2 |! (t_column "|" "!" "||" "!!" "|!")  td th /td /th  r (t_row) tr /tr
+                    { (t_begin_table)  tb (<table>)  } (t_end_table)  /table  + (t_tablecaption)  | (special)  [[  ref
             fuel = "-" (X_fuel toks) or a decimal integer
             tokens = space separated codes, ids are the positions 1,2,3,..:
               o  s<n>  e<n>  n  b  i<chars>  c<chars>  q<n>  u  ]  2  :  /ul  /ol  B
@@ -69,11 +74,60 @@ let sexp toks =
   List.iter (fun t -> (if !first then first := false else Buffer.add_char buf ' '); emit buf t) toks;
   Buffer.contents buf
 
+(* ---- generic tokens (gtok) of PassesPre.v *)
+let rec emit_g name buf (GTok (k, i, kids)) =
+  Buffer.add_char buf '(';
+  Buffer.add_string buf (name k);
+  Buffer.add_char buf ' ';
+  Buffer.add_string buf (string_of_int (int_of_n i));
+  List.iter (fun t -> Buffer.add_char buf ' '; emit_g name buf t) kids;
+  Buffer.add_char buf ')'
+
+let sexp_g name toks =
+  let buf = Buffer.create 4096 in
+  let first = ref true in
+  List.iter (fun t -> (if !first then first := false else Buffer.add_char buf ' '); emit_g name buf t) toks;
+  Buffer.contents buf
+
+let xkind_of_code = function
+  | "o" -> XOther | "w" -> XPre | "n" -> XNewline | "B" -> XBlock | "F" -> XPreformatted
+  | "Dq" -> XTag XtBlockquote | "Dt" -> XTag XtTable | "Dl" -> XTag XtTimeline | "Dd" -> XTag XtDiv | "Ds" -> XTag XtSpan
+  | c -> failwith ("bad code " ^ c)
+
+let name_of_xkind = function
+  | XOther -> "o" | XPre -> "pre" | XNewline -> "n" | XBlock -> "B" | XPreformatted -> "pref"
+  | XTag XtBlockquote -> "blockquote0" | XTag XtTable -> "table0" | XTag XtTimeline -> "timeline0"
+  | XTag XtDiv -> "div0" | XTag XtSpan -> "span0"
+
+let tkd_of_code = function
+  | "o" -> TOther false | "_" -> TOther true | "n" -> TNewline | "b" -> TBreak
+  | "|1" -> TColumn MBar | "!1" -> TColumn MBang | "|2" -> TColumn M2Bar | "!2" -> TColumn M2Bang | "|!" -> TColumn MOtherMark
+  | "td" -> TCellTag false | "th" -> TCellTag true | "/td" -> TCellEnd false | "/th" -> TCellEnd true
+  | "r" -> TRow | "tr" -> TRowTag | "/tr" -> TRowEnd
+  | "{" -> TBegin | "tb" -> TTableTag | "}" -> TEnd | "/table" -> TTableEnd
+  | "+" -> TCaption | "|" -> TBar | "[[" -> T2Open | "ref" -> TRefTag
+  | c -> failwith ("bad code " ^ c)
+
+let name_of_tkd = function
+  | TOther false -> "o" | TOther true -> "_" | TNewline -> "n" | TBreak -> "b"
+  | TColumn MBar -> "|1" | TColumn MBang -> "!1" | TColumn M2Bar -> "|2" | TColumn M2Bang -> "!2" | TColumn MOtherMark -> "|!"
+  | TCellTag false -> "td" | TCellTag true -> "th" | TCellEnd false -> "/td" | TCellEnd true -> "/th"
+  | TRow -> "r" | TRowTag -> "tr" | TRowEnd -> "/tr"
+  | TBegin -> "{" | TTableTag -> "tb" | TEnd -> "}" | TTableEnd -> "/table"
+  | TCaption -> "+" | TBar -> "|" | T2Open -> "[[" | TRefTag -> "ref0"
+  | TPlus -> "plus" | TCell false -> "celltd" | TCell true -> "cellth" | TRowNode -> "row" | TTable -> "table"
+  | TCaptionNode -> "cap"
+
 let nonempty l = List.filter (fun x -> x <> "") l
 
 let parse_toks s =
   let codes = nonempty (String.split_on_char ' ' s) in
   let (_, acc) = List.fold_left (fun (i, acc) c -> (i + 1, Tok (kind_of_code c, n_of_int i, []) :: acc)) (1, []) codes in
+  List.rev acc
+
+let parse_gtoks kind_of s =
+  let codes = nonempty (String.split_on_char ' ' s) in
+  let (_, acc) = List.fold_left (fun (i, acc) c -> (i + 1, GTok (kind_of c, n_of_int i, []) :: acc)) (1, []) codes in
   List.rev acc
 
 (* "c1,c2=a.b.i,a.b.i;..." -> (int list * qst list) list *)
@@ -95,20 +149,27 @@ let () =
   try while true do
     let line = input_line stdin in
     (try
-      let bar = String.index line '|' in
+      let bar = String.rindex line '|' in     (* the table passes have token codes with '|' *)
       let head = String.sub line 0 bar and cp = String.sub line (bar + 1) (String.length line - bar - 1) in
       let k = head.[0] in
       let sp = (try String.index_from head 2 ' ' with Not_found -> String.length head) in
       let fuel_s = String.sub head 2 (sp - 2) in
       let toks_s = if sp >= String.length head then "" else String.sub head (sp + 1) (String.length head - sp - 1) in
-      let toks = parse_toks toks_s in
+      let toks = if String.contains "SLPQU" k then parse_toks toks_s else [] in
       let pick dflt = if fuel_s = "-" then dflt toks else nat_of_int (int_of_string fuel_s) in
+      let pickg dflt gtoks = if fuel_s = "-" then dflt gtoks else nat_of_int (int_of_string fuel_s) in
+      let str r name = (match r with POk (out, iters) -> POk (sexp_g name out, iters) | PRaise e -> PRaise e) in
+      let old r = (match r with POk (out, iters) -> POk (sexp out, iters) | PRaise e -> PRaise e) in
       let res, fuel =
         match k with
-        | 'S' -> let f = pick sec_fuel in sec_run f toks, f
-        | 'L' -> let f = pick lin_fuel in lin_run f toks, f
-        | 'P' -> let f = pick par_fuel in par_run f toks, f
-        | 'U' -> let f = pick url_fuel in url_run f toks, f
+        | 'C' -> let g = parse_gtoks tkd_of_code toks_s in let f = pickg cell_fuel g in str (cell_run f g) name_of_tkd, f
+        | 'R' -> let g = parse_gtoks tkd_of_code toks_s in let f = pickg row_fuel g in str (row_run f g) name_of_tkd, f
+        | 'T' -> let g = parse_gtoks tkd_of_code toks_s in let f = pickg tab_fuel g in str (tab_run f g) name_of_tkd, f
+        | 'F' -> let g = parse_gtoks xkind_of_code toks_s in let f = pickg pre_fuel g in str (pre_run f g) name_of_xkind, f
+        | 'S' -> let f = pick sec_fuel in old (sec_run f toks), f
+        | 'L' -> let f = pick lin_fuel in old (lin_run f toks), f
+        | 'P' -> let f = pick par_fuel in old (par_run f toks), f
+        | 'U' -> let f = pick url_fuel in old (url_run f toks), f
         | 'Q' ->
           (* the real compute_path breaks ties between equally good paths by comparing State objects (their
              addresses), so equal counts can give different paths within one run: entries with the same counts
@@ -122,13 +183,13 @@ let () =
              | [] -> PRaise PValue
              | [st] -> POk st
              | st :: more -> Hashtbl.replace table key more; POk st) in
-          let f = pick sq_fuel in sq_run cpath f toks, f
+          let f = pick sq_fuel in old (sq_run cpath f toks), f
         | _ -> failwith "bad pass" in
       (match res with
        | POk (out, iters) ->
          print_string "OK "; print_string (string_of_int (int_of_nat iters)); print_char ' ';
          print_string (string_of_int (int_of_nat fuel)); print_char ' ';
-         print_string (sexp out); print_char '\n'
+         print_string out; print_char '\n'
        | PRaise e -> print_string ("RAISE " ^ exn_name e ^ "\n"))
     with
     | End_of_file -> raise End_of_file
